@@ -31,7 +31,7 @@ APPENDER = '_append_suboperation'
 def _graph(ctx, F):
     R = ctx.R
     G = guards(ctx)
-    stop = set(G.all) | {G.replay}
+    stop = G.opaque
 
     def inline(g):
         return g.cls == R.builder and g not in stop
